@@ -16,7 +16,7 @@ fi
 SEED="${VERIF_SEED:-20260924}"
 T0=$(date +%s.%N)
 export CARGO_NET_OFFLINE=true
-cd /repo || exit 2
+cd "${VERIF_REPO:-/repo}" || exit 2
 LOG="$VERIF_DIR/loom/build.log"
 RUSTFLAGS="--cfg loom --cfg penguin_rs_verif" CARGO_TARGET_DIR="$VERIF_DIR/loom-target" cargo test -p penguin-mux --lib --release --offline --no-run > "$LOG" 2>&1 || { echo "BUILD FAILED (loom)"; tail -30 "$LOG"; exit 2; }
 BIN=$(ls -t "$VERIF_DIR"/loom-target/release/deps/penguin_mux-* 2>/dev/null | grep -v '\.d$' | head -1)
